@@ -298,6 +298,10 @@ func (a *Adv) Step() string {
 		reset := ch.Chance("inlogonreset", 1, 2) && a.s.E.Cfg.BeginString >= "FIX.4.1"
 		if reset {
 			p.OutSeq = 1
+		} else if a.s.E.Cfg.ResetOnLogon && !a.s.E.Cfg.Initiator && ch.Chance("inlogonrenumber", 2, 3) {
+			// the counterparty knows that this acceptor begins a new numbering with every Logon it accepts
+			// (ResetOnLogon) and numbers from 1 again without saying so
+			p.OutSeq = 1
 		}
 		label = fmt.Sprintf("logon in session seq=%d reset=%v (T=%d)", p.OutSeq, reset, T)
 		a.send("A", p.LogonBody(a.hb, reset), MsgOpt{})
